@@ -180,17 +180,52 @@ def _validators(cfg, rep):
                 rep.violation("V1-probability-accepted-iff-in-0-1", f"validator:{name}", f"{name}={val} was {res}", {"contract": "validator", "field": name, "value": "nan" if val != val else val})
             elif v.status == "unknown":
                 rep.inconclusive_item("V1", "unknown")
-    # scale: float >= 0 accepted, negative rejected (the validator tests isinstance(scale, float), so it is given real floats: decided by sign cases via the solver on the comparison only)
-    for val, want in ((0.0, True), (0.5, True), (3.0, True), (-0.25, False), (-1e-9, False)):
-        try:
-            PreprocessingConfig(scale=val)
-            got = True
-        except ValueError:
-            got = False
-        rep.paths += 1
-        rep.record("V2-invalid-scale-rejected", "unsat" if got == want else "sat")
-        if got != want:
-            rep.violation("V2-invalid-scale-rejected", "validator:scale", f"scale={val} accepted={got}", {"contract": "validator", "field": "scale", "value": val})
+    # scale: a float >= 0 or a list of floats >= 0 is accepted, anything else rejected.  The validator tests isinstance(x, float), so the symbolic
+    # value is carried by a float SUBCLASS whose comparisons are symbolic (the explorer forks on them)
+    class SymFloat(float):
+        def __new__(cls, x):
+            o = float.__new__(cls, 0.0)
+            o.x = x
+            return o
+
+        def __ge__(self, o):
+            return self.x >= o
+
+        def __gt__(self, o):
+            return self.x > o
+
+        def __le__(self, o):
+            return self.x <= o
+
+        def __lt__(self, o):
+            return self.x < o
+
+    for shape in ("scalar", "list2"):
+        ex = Explorer([], timeout_ms=20000)
+        names = ["s0"] if shape == "scalar" else ["s0", "s1"]
+        vs = [(z3.Real(n), z3.Bool(n + "#nan")) for n in names]
+
+        def path(shape=shape, vs=vs):
+            vals = [SymFloat(XF(v, fl)) for v, fl in vs]
+            try:
+                PreprocessingConfig(scale=vals[0] if shape == "scalar" else vals)
+                return "accepted"
+            except ValueError:
+                return "rejected"
+        for res in ex.run(path):
+            rep.paths += 1
+            rep.nontrivial_paths += 1
+            valid = And(*[And(Not(fl), rcmp(">=", v, 0)) for v, fl in vs])
+            goal = valid if res == "accepted" else Not(valid)
+            v_ = ex.prove(goal)
+            rep.record("V2-scale-accepted-iff-every-entry-is-a-float-ge-0", v_.status, v_.seconds)
+            if v_.status == "sat":
+                env = DefaultEnv(model_env(v_.model))
+                val = [("nan" if env[n + "#nan"] else float(env[n])) for n in names]
+                rep.violation("V2-scale-accepted-iff-every-entry-is-a-float-ge-0", f"validator:scale:{shape}", f"scale={val if shape != 'scalar' else val[0]} was {res}",
+                              {"contract": "validator", "field": "scale", "value": val if shape != "scalar" else val[0]})
+            elif v_.status == "unknown":
+                rep.inconclusive_item("V2", "unknown")
     rep.sample({"validators": list(makers) + ["scale"]})
     return rep.finish()
 
@@ -200,7 +235,7 @@ def replay(cfg, inputs, obligation):
     if inputs.get("contract") == "validator":
         from sleap_nn.config.data_config import IntensityConfig, GeometricConfig, PreprocessingConfig
         f, v = inputs["field"], inputs["value"]
-        v = float("nan") if v == "nan" else v
+        v = [float("nan") if x == "nan" else float(x) for x in v] if isinstance(v, list) else (float("nan") if v == "nan" else v)
         try:
             if f == "scale":
                 PreprocessingConfig(scale=v)
@@ -211,7 +246,7 @@ def replay(cfg, inputs, obligation):
             acc = True
         except ValueError:
             acc = False
-        want = (v >= 0) if f == "scale" else (0.0 <= v <= 1.0)
+        want = (all(x >= 0 for x in v) if isinstance(v, list) else (v >= 0)) if f == "scale" else (0.0 <= v <= 1.0)
         return acc != want, f"{f}={v}: accepted={acc}, should be accepted={want}"
     if inputs.get("contract") == "concrete":
         from symx.harness import Report
